@@ -64,3 +64,28 @@ package proto
 //@ contract lemmaConflictsReflexive(a) (x) props(C19)
 //@   unfold (ColumnType).Conflicts
 //@   ensures !x [C19] {conflicts-is-reflexive}
+
+// ---------------------------------------------------------------------------
+// Inference (C19, partial): the Decimal(P, S) branch of ColAuto.Infer picks the storage width by
+// precision exactly as ClickHouse defines it (Decimal32: 1..9, Decimal64: 10..18, Decimal128:
+// 19..38, Decimal256: 39..76) - stated at the allocation of each column kind; DateTime64 adopts the
+// precision of the type it is inferred from, whatever it held before (C16/C18 reuse).
+
+//@ contract (c *ColAuto) Infer(t) (err) props(C01,C18,C19)
+//@   requires c != nil
+//@   modifies c.Data, c.DataType
+//@ callsite new:ColDecimal32#1
+//@   assert 1 <= prec && prec < 10 [C19] {decimal32-for-precision-1-to-9}
+//@ callsite new:ColDecimal64#1
+//@   assert 10 <= prec && prec < 19 [C19] {decimal64-for-precision-10-to-18}
+//@ callsite new:ColDecimal128#1
+//@   assert 19 <= prec && prec < 39 [C19] {decimal128-for-precision-19-to-38}
+//@ callsite new:ColDecimal256#1
+//@   assert 39 <= prec && prec < 77 [C19] {decimal256-for-precision-39-to-76}
+
+//@ contract (c *ColDateTime64) Infer(t) (err) props(C16,C18,C19)
+//@   requires c != nil
+//@   modifies c.Precision, c.PrecisionSet, c.Location
+//@   ensures err == nil ==> c.PrecisionSet [C16,C18,C19] {precision-set}
+//@   ensures [internal] err == nil ==> c.Precision == p [C16,C18,C19] {adopts-the-inferred-precision-whatever-it-held}
+//@   ensures err == nil ==> c.Precision <= 9 [C19] {precision-is-valid}
